@@ -71,11 +71,13 @@ extern size_t mpt_queue_prepare(MPT_STRUCT(queue) *queue, size_t len)
 	size_t left;
 	
 	if (len > (left = queue->max - queue->len)) {
-		if ((SIZE_MAX-left) < len) {
+		/* new size (used + requested) and its alignment must not wrap */
+		if ((SIZE_MAX - queue->len) < len
+		    || MPT_align(len + queue->len) < len) {
 			errno = EOVERFLOW;
 			return 0;
 		}
-		len = (len - left) + queue->max;
+		len += queue->len;
 		
 		if (!mpt_queue_resize(queue, MPT_align(len))) {
 			return 0;
